@@ -1,0 +1,14 @@
+//go:build verif
+
+package snapshot
+
+// VerifCrashPoint, when set, is called at named points between the durable steps of the
+// snapshotter's operations so that the verification harness can take a crash image (a copy of
+// the root directory) at that instant.
+var VerifCrashPoint func(name string)
+
+func verifCrashPoint(name string) {
+	if f := VerifCrashPoint; f != nil {
+		f(name)
+	}
+}
